@@ -460,7 +460,7 @@ func c08NoCrash(r *core.Run) {
 // made with that length (header and body are copied into it). An image sized by the body it happens to hold is
 // shorter than what its header announces for a header-only packet built with NewPacket (the teardown of a logical
 // channel), and the receiver takes the next packets' bytes as its body.
-func c01PacketImage(r *core.Run) {
+func c01PacketImage(r *core.Run, rule string) {
 	p := r.Prog
 	fn := p.Func("tds", "Packet", "Bytes")
 	fLen := p.Field("tds", "PacketHeader", "Length")
@@ -484,7 +484,7 @@ func c01PacketImage(r *core.Run) {
 	if n == 0 {
 		why = "Packet.Bytes never returns an image"
 	}
-	r.Check(why == "", "R01.17", "Packet.Bytes: the image has Header.Length bytes", fn.Pos(), "make([]byte, Header.Length)", why)
+	r.Check(why == "", rule, "Packet.Bytes: the image has Header.Length bytes", fn.Pos(), "make([]byte, Header.Length)", why)
 }
 
 // c11CallbackErrorWrapped: R11.10. Whatever the callback of NextPackageUntil answers together with an error — also
@@ -1945,4 +1945,386 @@ func answersUseNoPackageState(r *core.Run, rule string) {
 		}
 		r.Check(bad == "", rule, "ASEIsolationLevel."+name+": no package-level state", fn.Pos(), "a function of the level alone", "ASEIsolationLevel."+name+" uses the package-level variable "+bad+": what it answers for a level depends on earlier calls (a cache shared by several level values) and not on the level alone")
 	}
+}
+
+// callersOf: who-may-call helper. Every static call of callee in the module lies in one of the allowed functions
+// (closures count for the function they are declared in).
+func callersOf(r *core.Run, rule string, callee *ssa.Function, allowed map[*ssa.Function]bool, what, consequence string) {
+	p := r.Prog
+	n := 0
+	for _, fn := range p.ModuleFuncs() {
+		if fn.Blocks == nil || p.FuncInOverlay(fn) {
+			continue
+		}
+		outer := fn
+		for outer.Parent() != nil {
+			outer = outer.Parent()
+		}
+		for _, c := range callsTo(fn, callee) {
+			n++
+			if allowed[outer] {
+				r.OK(rule, core.FuncName(outer)+": calls "+callee.Name(), c.Pos(), what)
+				continue
+			}
+			r.Bad(rule, core.FuncName(outer)+": calls "+callee.Name(), c.Pos(), core.FuncName(outer)+" calls "+callee.Name()+" itself: "+consequence)
+		}
+	}
+	r.Check(n > 0, rule, callee.Name()+" is called from its owners only", token.NoPos, fmt.Sprintf("%d call sites", n), "no call of "+callee.Name()+" found")
+}
+
+// errEdgeReturnsError: on the non-nil edge of the error of call (in fn), every path ends in a return of a non-nil
+// error.
+func errEdgeReturnsError(r *core.Run, rule, key string, fn *ssa.Function, c ssa.CallInstruction, consequence string) {
+	p := r.Prog
+	e, has := errResult(c)
+	why := "the error of the call is never tested"
+	if has && e != nil {
+		for _, ref := range *e.Referrers() {
+			bo, isBo := ref.(*ssa.BinOp)
+			if !isBo {
+				continue
+			}
+			_, nn, isT := core.ErrNilTest(bo)
+			if !isT {
+				continue
+			}
+			for _, r2 := range *bo.Referrers() {
+				iff, isIf := r2.(*ssa.If)
+				if !isIf {
+					continue
+				}
+				s := iff.Block().Succs[1]
+				if nn {
+					s = iff.Block().Succs[0]
+				}
+				why = ""
+				core.EnumPaths(s, func(b *ssa.BasicBlock) bool { return false }, nil, 3000, func(pa core.Path, ended bool) {
+					last := pa.Blocks[len(pa.Blocks)-1]
+					ret, isRet := last.Instrs[len(last.Instrs)-1].(*ssa.Return)
+					if !isRet {
+						return
+					}
+					rv := core.RetVals(ret)
+					if core.IsNil(rv[len(rv)-1]) {
+						why = "after the call failed a return without error is reachable (" + p.Pos(ret.Pos()) + "): " + consequence
+					}
+				})
+			}
+		}
+		// returned directly
+		for _, ret := range core.Returns(fn) {
+			rv := core.RetVals(ret)
+			if core.Strip(rv[len(rv)-1]) == e && why == "the error of the call is never tested" {
+				why = ""
+			}
+		}
+	}
+	r.Check(why == "", rule, key, c.Pos(), "err != nil leads to error returns only", why)
+}
+
+func c12Round(r *core.Run) {}
+
+// lastPkgCoversFormats: R06.22. ParamsPackage.LastPkg takes the column formats from whatever package preceded the
+// row: a format package, another row/params package, or an ORDERBY/ORDERBY2 that itself took them from the format.
+// The type switch has an arm for each of the six (a Go type switch does not match an embedding type for the embedded
+// one): without the arm for ORDERBY2 a row that follows it is rejected although the stream is well-formed.
+func lastPkgCoversFormats(r *core.Run, rule string) {
+	p := r.Prog
+	fn := p.Func("tds", "ParamsPackage", "LastPkg")
+	want := []string{"ParamFmtPackage", "RowFmtPackage", "ParamsPackage", "RowPackage", "OrderByPackage", "OrderBy2Package"}
+	have := map[string]bool{}
+	for _, b := range fn.Blocks {
+		for _, in := range b.Instrs {
+			if ta, ok := in.(*ssa.TypeAssert); ok {
+				if pt, isP := ta.AssertedType.(*types.Pointer); isP {
+					if n, isN := pt.Elem().(*types.Named); isN {
+						have[n.Obj().Name()] = true
+					}
+				}
+			}
+		}
+	}
+	for _, w := range want {
+		r.Check(have[w], rule, "ParamsPackage.LastPkg accepts *"+w+" as predecessor", fn.Pos(), "case *"+w, "LastPkg has no arm for *"+w+": a TDS_ROW/TDS_PARAMS that follows such a package is rejected (\"received without preceding format\") although the server's stream is well-formed")
+	}
+}
+
+// maxLengthFromWire: R06.23. The maximal length of a column format is what the wire says, also when that is 0: the
+// store in readFromBase is not conditional on the value read.
+func storeUnconditional(r *core.Run, rule string, fn *ssa.Function, field *types.Var, after ssa.Instruction, what, consequence string) {
+	var st *ssa.Store
+	for _, b := range fn.Blocks {
+		for _, in := range b.Instrs {
+			if s, ok := in.(*ssa.Store); ok {
+				if fa, isFA := s.Addr.(*ssa.FieldAddr); isFA && core.FieldOfAddr(fa) == field {
+					st = s
+				}
+			}
+		}
+	}
+	why := ""
+	if st == nil {
+		why = "no assignment of " + field.Name() + " found"
+	} else {
+		for _, ret := range core.Returns(fn) {
+			rv := core.RetVals(ret)
+			if !core.IsNil(rv[len(rv)-1]) || (after != nil && !core.Dominates(after, ret)) {
+				continue
+			}
+			if !core.Dominates(st, ret) {
+				why = consequence
+			}
+		}
+	}
+	pos := fn.Pos()
+	if st != nil {
+		pos = st.Pos()
+	}
+	r.Check(why == "", rule, what, pos, "the store dominates every success return", why)
+}
+
+// noNilFormat: R10.17. In LookupFieldFmt the format on which SetDataType is invoked after the switch is, on every
+// arm, the object that arm created: a `f := ...` that shadows the result variable leaves it nil, and the method call
+// on the nil interface panics in the reader goroutine for that data type.
+func noNilFormat(r *core.Run, rule string) {
+	p := r.Prog
+	fn := p.Func("tds", "", "LookupFieldFmt")
+	n := 0
+	for _, c := range core.Calls(fn) {
+		cc := c.Common()
+		if !cc.IsInvoke() || cc.Method.Name() != "SetDataType" {
+			continue
+		}
+		n++
+		why := ""
+		for _, leaf := range phiLeaves(cc.Value, nil) {
+			if core.IsNil(leaf) {
+				why = "on some arm of LookupFieldFmt the format is still nil when SetDataType is called on it (the arm assigns a shadowing variable, or nothing): for that data type byte in a ROWFMT/PARAMFMT the reader goroutine dereferences a nil interface"
+			}
+		}
+		r.Check(why == "", rule, "LookupFieldFmt: every arm leaves a format to call SetDataType on", c.Pos(), "no nil input to the merged format value", why)
+	}
+	if n == 0 {
+		r.Bad(rule, "LookupFieldFmt: SetDataType call", fn.Pos(), "no SetDataType call found")
+	}
+}
+
+// tokenlessHasBuffer: R10.18. NewTokenlessPackage gives the package its buffer: Data is a *bytes.Buffer, its zero value
+// is nil, and tryParsePackage writes the token byte into it for every token the library has no package for.
+func tokenlessHasBuffer(r *core.Run, rule string) {
+	p := r.Prog
+	fn := p.Func("tds", "", "NewTokenlessPackage")
+	fData := p.Field("tds", "TokenlessPackage", "Data")
+	ok := false
+	for _, b := range fn.Blocks {
+		for _, in := range b.Instrs {
+			if st, isSt := in.(*ssa.Store); isSt {
+				if fa, isFA := st.Addr.(*ssa.FieldAddr); isFA && core.FieldOfAddr(fa) == fData && !core.IsNil(st.Val) {
+					ok = true
+				}
+			}
+		}
+	}
+	r.Check(ok, rule, "NewTokenlessPackage allocates the buffer", fn.Pos(), "Data: &bytes.Buffer{}", "NewTokenlessPackage leaves Data nil: the first byte of any package with a token the library does not know is written through a nil *bytes.Buffer in the reader goroutine")
+}
+
+// hookLoopsUnconditional: R11.14 / R11.13. Every message reaches every hook and the returned error: callEnvChangeHooks
+// and callEEDHooks have no return in front of their hook loop, and EEDError.Add no return in front of its append.
+func noEarlyReturn(r *core.Run, rule string, fn *ssa.Function, what, consequence string) {
+	n := 0
+	for _, ret := range core.Returns(fn) {
+		_ = ret
+		n++
+	}
+	r.Check(n == 1, rule, what, fn.Pos(), "a single return, at the end", fmt.Sprintf("%s has %d returns: ", core.FuncName(fn), n)+consequence)
+}
+
+// logoutNeedsAnswer: R14.19. Logout reports success only after the server's answer was received: every nil return is
+// under the nil edge of the receive call's error.
+func logoutNeedsAnswer(r *core.Run, rule string) {
+	p := r.Prog
+	fn := p.Func("tds", "Channel", "Logout")
+	var recv []ssa.CallInstruction
+	for _, c := range core.Calls(fn) {
+		if f := core.StaticCallee(c); f != nil && (f.Name() == "NextPackage" || f.Name() == "NextPackageUntil") {
+			recv = append(recv, c)
+		}
+	}
+	why := ""
+	if len(recv) == 0 {
+		why = "Logout does not wait for the server's answer"
+	}
+	for _, ret := range core.Returns(fn) {
+		rv := core.RetVals(ret)
+		if !core.IsNil(rv[len(rv)-1]) {
+			continue
+		}
+		ok := false
+		for _, c := range recv {
+			if errNilGuard(core.GuardsAt(ret), c) {
+				ok = true
+			}
+		}
+		if !ok && why == "" {
+			why = "Logout can report success (" + p.Pos(ret.Pos()) + ") although receiving the answer failed (e.g. the peer hung up): the final DONE never arrived, yet Close reports an orderly logout"
+		}
+	}
+	r.Check(why == "", rule, "Logout: success only after the answer was received", fn.Pos(), "every nil return is under err == nil of the receive", why)
+}
+
+// singleFlush: R14.20. SendRemainingPackets flushes once and returns that result: sendPackets discards the queue when it
+// returns (deferred), so a second call after a failure has nothing to send and reports success for a truncated request.
+func singleFlush(r *core.Run, rule string) {
+	p := r.Prog
+	fn := p.Func("tds", "Channel", "SendRemainingPackets")
+	sp := p.Func("tds", "Channel", "sendPackets")
+	calls := callsTo(fn, sp)
+	why := ""
+	if len(calls) != 1 {
+		why = fmt.Sprintf("SendRemainingPackets calls sendPackets %d times: after a failed flush the queue has been discarded, a retry sends nothing and its nil result replaces the error — the request is reported as sent although its last packet never went out", len(calls))
+	} else {
+		e, _ := errResult(calls[0])
+		for _, ret := range core.Returns(fn) {
+			if !core.Dominates(calls[0].(ssa.Instruction), ret) {
+				continue
+			}
+			rv := core.RetVals(ret)
+			if core.Strip(rv[len(rv)-1]) != e {
+				why = "SendRemainingPackets returns " + core.Expr(rv[len(rv)-1]) + " after the flush, not the result of sendPackets"
+			}
+		}
+	}
+	r.Check(why == "", rule, "SendRemainingPackets: one flush, its result returned", fn.Pos(), "return tdsChan.sendPackets(ctx, false)", why)
+}
+
+// cmpLooksAtDeclaration: R16.11. Decimal.Cmp answers true only for equal precision AND scale AND magnitude: every
+// return that is not the constant false is under the equal edges of the precision and the scale comparison.
+func cmpLooksAtDeclaration(r *core.Run, rule string) {
+	p := r.Prog
+	fn := p.Func("asetypes", "Decimal", "Cmp")
+	fP := p.Field("asetypes", "Decimal", "Precision")
+	fS := p.Field("asetypes", "Decimal", "Scale")
+	why := ""
+	for _, ret := range core.Returns(fn) {
+		v := core.RetVals(ret)[0]
+		if c, isC := v.(*ssa.Const); isC && c.Value != nil && c.Value.ExactString() == "false" {
+			continue
+		}
+		eq := map[*types.Var]bool{}
+		for _, g := range core.GuardsAt(ret) {
+			bo, ok := g.Cond.(*ssa.BinOp)
+			if !ok {
+				continue
+			}
+			fx, _ := core.FieldLoad(core.Strip(bo.X))
+			fy, _ := core.FieldLoad(core.Strip(bo.Y))
+			if fx != nil && fx == fy && ((bo.Op == token.EQL && g.Pol) || (bo.Op == token.NEQ && !g.Pol)) {
+				eq[fx] = true
+			}
+		}
+		if !eq[fP] || !eq[fS] {
+			why = "Decimal.Cmp can answer " + core.Expr(v) + " (" + p.Pos(ret.Pos()) + ") without having compared precision and scale: two decimals that share their big.Int (a struct copy with another scale) compare equal although they denote different numbers"
+		}
+	}
+	r.Check(why == "", rule, "Decimal.Cmp: true only for equal precision, scale and magnitude", fn.Pos(), "non-false returns are under Precision == and Scale ==", why)
+}
+
+// ctorStoresArgs: R16.1 (clause). NewDecimal checks the precision and scale it was GIVEN: the values stored into the
+// decimal that sanity() inspects are the parameters themselves, not clamped or converted copies.
+func ctorStoresArgs(r *core.Run, rule string) {
+	p := r.Prog
+	fn := p.Func("asetypes", "", "NewDecimal")
+	for i, name := range []string{"Precision", "Scale"} {
+		f := p.Field("asetypes", "Decimal", name)
+		why := "NewDecimal does not set " + name
+		for _, b := range fn.Blocks {
+			for _, in := range b.Instrs {
+				st, ok := in.(*ssa.Store)
+				if !ok {
+					continue
+				}
+				fa, isFA := st.Addr.(*ssa.FieldAddr)
+				if !isFA || core.FieldOfAddr(fa) != f {
+					continue
+				}
+				if st.Val == ssa.Value(fn.Params[i]) {
+					why = ""
+				} else {
+					why = "NewDecimal stores " + core.Expr(st.Val) + " as " + name + ", not the value it was given: an invalid declaration (e.g. precision 40) is adjusted instead of rejected, and a 40-digit numeral is accepted and silently changed"
+				}
+			}
+		}
+		r.Check(why == "", rule, "NewDecimal stores the "+strings.ToLower(name)+" it was given", fn.Pos(), "field := parameter", why)
+	}
+}
+
+// formatSimpleWritesAll: R17.16. FormatSimple writes every member TagToField yields: no way round the member loop misses
+// the append (ParseSimple keeps the target's current value for a key that is absent, so a left-out member does not
+// come back).
+func formatSimpleWritesAll(r *core.Run, rule string) {
+	p := r.Prog
+	fn := p.Func("dsn", "", "FormatSimple")
+	why := "no member loop found in FormatSimple"
+	for _, b := range fn.Blocks {
+		for _, in := range b.Instrs {
+			c, ok := in.(*ssa.Call)
+			if !ok {
+				continue
+			}
+			if bi, isB := c.Call.Value.(*ssa.Builtin); !isB || bi.Name() != "append" {
+				continue
+			}
+			h, loop := core.InnermostLoop(b)
+			if loop == nil {
+				continue
+			}
+			why = ""
+			var body *ssa.BasicBlock
+			for _, s := range h.Succs {
+				if loop[s] {
+					body = s
+				}
+			}
+			if body == nil {
+				continue
+			}
+			core.EnumPaths(body, func(x *ssa.BasicBlock) bool { return x == h }, loop, 3000, func(pa core.Path, ended bool) {
+				if !ended {
+					return
+				}
+				through := false
+				for _, x := range pa.Blocks {
+					if x == b {
+						through = true
+					}
+				}
+				if !through {
+					why = "an iteration of FormatSimple's member loop can finish without writing key=value (a member is skipped on its value, e.g. a non-positive integer): parsed back, the member keeps the target's default instead of the formatted value"
+				}
+			})
+		}
+	}
+	r.Check(why == "", rule, "FormatSimple writes every member", fn.Pos(), "every iteration appends key=value", why)
+}
+
+// stringIsToGo: R20.8. Printing and translating back agree because String IS ToGo().String(): the receiver of the
+// sql.IsolationLevel.String call is the result of lvl.ToGo() itself.
+func stringIsToGo(r *core.Run, rule string) {
+	p := r.Prog
+	fn := p.Func("", "ASEIsolationLevel", "String")
+	toGo := p.Func("", "ASEIsolationLevel", "ToGo")
+	why := ""
+	for _, ret := range core.Returns(fn) {
+		v := core.Strip(core.RetVals(ret)[0])
+		c, ok := v.(*ssa.Call)
+		if !ok || c.Call.StaticCallee() == nil || c.Call.StaticCallee().Name() != "String" || len(c.Call.Args) != 1 {
+			why = "String returns " + core.Expr(v) + ", not ToGo().String()"
+			continue
+		}
+		in, ok := core.Strip(c.Call.Args[0]).(*ssa.Call)
+		if !ok || in.Call.StaticCallee() != toGo || core.Strip(in.Call.Args[0]) != ssa.Value(fn.Params[0]) {
+			why = "String prints " + core.Expr(c.Call.Args[0]) + ", not the level ToGo() translates the receiver to: for levels outside the enumeration printing and translating back disagree (an invalid level prints as a valid one)"
+		}
+	}
+	r.Check(why == "", rule, "ASEIsolationLevel.String is ToGo().String()", fn.Pos(), "return lvl.ToGo().String()", why)
 }
